@@ -60,6 +60,11 @@ UNITS = {
         {"name": "C16_INP", "test": "TestC16_INP", "quick": 4000, "thorough": 40000, "shards": 12},
         {"name": "C16_BIN", "test": "TestC16_BIN", "quick": 60, "thorough": 400, "shards": 4, "bin": True},
     ],
+    "C18": [
+        {"name": "C18_START", "test": "TestC18_START", "quick": 400, "thorough": 8000, "shards": 8, "bin": True},
+        {"name": "C18_LOAD", "test": "TestC18_LOAD", "quick": 2000, "thorough": 40000, "shards": 2},
+        {"name": "C18_PAIR", "test": "TestC18_PAIR", "quick": 24, "thorough": 200, "shards": 4, "bin": True},
+    ],
     "C19": [
         {"name": "C19_MAP", "test": "TestC19_MAP", "quick": 8000, "thorough": 150000, "shards": 4},
         {"name": "C19_BUILDER", "test": "TestC19_BUILDER", "quick": 4000, "thorough": 80000, "shards": 4},
@@ -73,6 +78,8 @@ UNITS = {
 }
 
 RULES = {
+    "C18": "case = (authentication subset incl. the 'basic' alias, TLS mode, host-selection mode, query-token key, number of hosts, keytab, token-auth true/false/default, each delivered by file, by RDPGW_ environment variable in the documented spelling, or both with the file carrying a conflicting value); "
+           "plus key-length assignments (absent, 0, 1, 31, 32) for the five keys, and pairs of real instances sharing a short key; every configuration counts as non-trivial (the refuse/accept table has no trivial region), distinct = distinct case JSON",
     "C12": "case = (real instance: selection mode, host list with/without placeholder, domain splitting, user-name template, no-username, user tokens; 1-6 requests: session none/new/failed-login/authenticated as user u with sub =/!= user name, host parameter absent/listed/unlisted/valid or forged/expired/wrong-issuer/wrong-key query token, login address, download address incl. X-Forwarded-For, replay transport); "
            "non-trivial = authenticated session with a non-default dimension",
     "C13": "case = sequence of 1-9 browser actions over three cookie jars against one real instance (cookie or file store): visit /connect, login with a fault drawn from 13 fault points, cookie mutation (substitution at a position, truncation, append), cookie of an instance with other keys, fresh jar; after every action /connect is requested; "
